@@ -195,8 +195,10 @@ func genLayer(t *tape.Tape, o LayerOpts) Layer {
 			// CWT claims (protected only by convention; generic validation does not care)
 			claims := []*refcbor.Item{
 				refcbor.Uint(1), refcbor.Tstr(genText(t, 12)),
-				refcbor.Uint(2), refcbor.Tstr(genText(t, 12)),
-				refcbor.Uint(6), refcbor.Int(int64(t.Choose(1<<30, "cwt.iat")))}
+				refcbor.Uint(2), refcbor.Tstr(genText(t, 12))}
+			if t.Bool(1, 2, "cwt.iat?") {
+				claims = append(claims, refcbor.Uint(6), refcbor.Int(int64(t.Choose(1<<30, "cwt.iat"))))
+			}
 			// a validity period (exp 4, nbf 5): long over, not yet begun, open,
 			// whole or fractional seconds.  Claims are the application's to
 			// judge - COSE signs them, it does not read them
@@ -271,6 +273,11 @@ func genLayer(t *tape.Tape, o LayerOpts) Layer {
 		perm := t.Perm(len(l.Prot), "crit.perm")
 		for i := 0; i < n; i++ {
 			labels = append(labels, l.Prot[perm[i]].K.Clone())
+		}
+		if n >= 2 && t.Bool(1, 4, "crit.repeat") {
+			// a crit list assembled from several sources names a label twice:
+			// nothing forbids that
+			labels = append(labels, labels[t.Choose(n, "crit.repeat.which")].Clone())
 		}
 		l.Prot = append(l.Prot, KV{refcbor.Uint(refcose.LCrit), refcbor.Array(labels...)})
 	}
@@ -507,6 +514,11 @@ func bucketToGo(b Bucket, sp Spelling, typedAlg bool) map[any]any {
 			}
 		default:
 			gv = itemToGo(v, sp, false)
+		}
+		if m, isMap := gv.(map[any]any); isMap && isInt && lbl == refcose.LCWTClaims && typedAlg {
+			// CWT claims under the library's own Go type (what SetCWTClaims
+			// stores), as often as alg under its own
+			gv = cose.CWTClaims(m)
 		}
 		out[gk] = gv
 	}
